@@ -42,6 +42,11 @@ pub const SLATE_MUTATIONS: &[&str] = &[
 	"proof_saddr_rand",
 	"proof_sig_other",
 	"kernel_features",
+	"com_drop",
+	"com_dup",
+	"com_add_other",
+	"com_swap_proof",
+	"com_replace_other",
 ];
 
 fn sk_from(arg: u64) -> SecretKey {
@@ -57,9 +62,10 @@ fn sk_from(arg: u64) -> SecretKey {
 }
 
 fn pk_from(arg: u64) -> PublicKey {
+	let sk = sk_from(arg);
 	let secp = static_secp_instance();
 	let secp = secp.lock();
-	PublicKey::from_secret_key(&secp, &sk_from(arg)).unwrap()
+	PublicKey::from_secret_key(&secp, &sk).unwrap()
 }
 
 pub fn dalek_pk_from(arg: u64) -> ed25519_dalek::PublicKey {
@@ -287,6 +293,55 @@ pub fn mutate_slate(ex: &Exec, m: usize, kind: &str, arg: u64) -> Option<Slate> 
 		"kernel_features" => {
 			let n = (1 + arg % 4) as u8;
 			s.kernel_features = n;
+		}
+		"com_drop" | "com_dup" | "com_add_other" | "com_swap_proof" | "com_replace_other" => {
+			use grin_core::core::Output;
+			let tx = s.tx.clone()?;
+			let mut outs: Vec<Output> = tx.outputs().to_vec();
+			// an output taken from another message on the wire
+			let other: Option<Output> = ex
+				.msgs
+				.iter()
+				.filter(|x| x.slate.id != s.id)
+				.filter_map(|x| x.slate.tx.as_ref())
+				.flat_map(|t| t.outputs().to_vec())
+				.nth((arg as usize / 5) % 4);
+			match kind {
+				"com_drop" => {
+					if outs.is_empty() {
+						return None;
+					}
+					let i = (arg as usize) % outs.len();
+					outs.remove(i);
+				}
+				"com_dup" => {
+					if outs.is_empty() {
+						return None;
+					}
+					let o = outs[(arg as usize) % outs.len()].clone();
+					outs.push(o);
+				}
+				"com_add_other" => outs.push(other?),
+				"com_replace_other" => {
+					if outs.is_empty() {
+						return None;
+					}
+					let i = (arg as usize) % outs.len();
+					outs[i] = other?;
+				}
+				_ => {
+					// keep the commitment, take the range proof of another output
+					if outs.is_empty() {
+						return None;
+					}
+					let i = (arg as usize) % outs.len();
+					let o = other?;
+					outs[i] = Output::new(outs[i].features(), outs[i].commitment(), o.proof);
+				}
+			}
+			let mut tx2 = tx.clone();
+			tx2.body = tx2.body.replace_outputs(&outs);
+			s.tx = Some(tx2);
 		}
 		_ => return None,
 	}
